@@ -123,6 +123,7 @@ def run(ctx, impl_only=False):
                 ctx.violate(case, 'empty diff although t1 != t2 (t1 and t2 share objects)')
             if bool(d) != bool(d2):
                 ctx.violate(case, 'sharing objects between / inside the inputs changes the verdict')
+    numpy_pairs(ctx)
     align_sound(ctx)
     if not impl_only:
         FAM.compare_with_model(ctx, reqs)
@@ -135,6 +136,50 @@ def run(ctx, impl_only=False):
             (ctx.known_not_reproduced if ok else ctx.known_reproduced).append(fid if ok else '%s: %s' % (fid, findings[fid]['what_fails']))
         elif not ok:
             ctx.violate({'witness': fid}, 'boundary witness %s fails and is not a listed finding' % fid)
+
+
+def numpy_pairs(ctx):
+    """numeric arrays: an empty diff only for arrays of the same shape and content - rows / columns appended or dropped, a changed entry,
+    another dtype -, bare and nested, under the tuning parameters"""
+    try:
+        import numpy as np
+    except ImportError:
+        return
+    from deepdiff import DeepDiff
+    base = [np.array([[1, 2], [3, 4]]), np.array([1, 2, 3]), np.array([[1.5, 2.5, 3.5]]), np.array([[[1], [2]], [[3], [4]]]), np.zeros((2, 0)), np.array([[1, 2], [3, 4], [5, 6]])]
+    def variants(a):
+        out = [a.copy()]
+        if a.ndim >= 2 and a.shape[0] >= 1:
+            out.append(np.concatenate([a, a[-1:]], axis=0))          # a row appended
+            out.append(a[:-1])                                        # a row dropped
+        if a.ndim >= 2 and a.shape[1] >= 1:
+            out.append(np.concatenate([a, a[:, -1:]], axis=1))       # a column appended
+        if a.ndim == 1:
+            out.append(np.concatenate([a, a[-1:]])); out.append(a[:-1])
+        if a.size:
+            b = a.copy(); b.flat[-1] = b.flat[-1] + 1; out.append(b)
+        return out
+    wraps = [lambda x: x, lambda x: {'a': x, 'n': 1}, lambda x: [0, x]]
+    for a in base:
+        for b in variants(a):
+            for w in wraps:
+                for cfg in [{}, dict(cache_size=500), dict(verbose_level=2, view='tree'), dict(threshold_to_diff_deeper=0)]:
+                    for (x, y) in ((a, b), (b, a)):
+                        t1, t2 = w(x.copy()), w(y.copy())
+                        case = {'t1': repr(t1), 't2': repr(t2), 'cfg': cfg, 'clause': 'numpy'}
+                        ctx.evaluations += 1
+                        try:
+                            d = DeepDiff(t1, t2, **cfg)
+                        except Exception as e:
+                            ctx.violate(case, 'DeepDiff raised %s: %s' % (type(e).__name__, str(e)[:80])); continue
+                        same = x.shape == y.shape and bool((x == y).all())
+                        ctx.count('numpy:' + ('same' if same else 'different'))
+                        if not same:
+                            ctx.nontriv((repr(t1), repr(t2), repr(sorted(cfg.items()))))
+                        if same and d:
+                            ctx.violate(case, 'equal arrays gave a non-empty diff')
+                        if not same and not d:
+                            ctx.violate(case, 'empty diff although the arrays differ')
 
 
 def align_sound(ctx):
